@@ -25,6 +25,7 @@ type LoopSpec struct {
 	Invariants []*Clause
 	Decreases  *Clause
 	Unroll     int
+	Uses       []*Clause // lemma instances assumed at the loop head
 }
 
 type SplitHint struct {
@@ -54,7 +55,8 @@ type FuncContract struct {
 	Abstract   []string // callee names to abstract (havoc) explicitly instead of inlining
 	File       string
 	Line       int
-	Ghost      []*Clause
+	GhostVars  []Param // logical variables: universally quantified over the whole contract
+	Where      *Clause // hypothesis about the logical variables, referred to as `where` in clauses
 }
 
 type SpecFn struct {
@@ -97,7 +99,7 @@ var ckeywords = map[string]bool{
 	"spec": true, "func": true, "lemma": true, "axiom": true, "prop": true, "mode": true, "requires": true,
 	"ensures": true, "modifies": true, "nopanic": true, "nooverflow": true, "pure": true,
 	"trusted": true, "inline": true, "loop": true, "use": true, "split": true, "tier": true,
-	"induct": true, "ih": true, "allocbound": true, "abstract": true, "ghost": true, "uninterp": true,
+	"induct": true, "ih": true, "allocbound": true, "abstract": true, "ghost": true, "uninterp": true, "where": true,
 }
 
 func parseParams(s string) ([]Param, error) {
@@ -413,12 +415,18 @@ func loadContracts(path string) (*PkgContracts, error) {
 						return nil, fail(l, "%v", err)
 					}
 					curF.AllocBound = e
-				case "ghost":
+				case "where":
 					c, err := mkClause(l, rest)
 					if err != nil {
 						return nil, err
 					}
-					curF.Ghost = append(curF.Ghost, c)
+					curF.Where = c
+				case "ghost":
+					ps, err := parseParams(rest)
+					if err != nil {
+						return nil, fail(l, "ghost: %v", err)
+					}
+					curF.GhostVars = append(curF.GhostVars, ps...)
 				case "loop":
 					f := strings.Fields(rest)
 					if len(f) < 2 {
@@ -447,6 +455,12 @@ func loadContracts(path string) (*PkgContracts, error) {
 							return nil, err
 						}
 						ls.Decreases = c
+					case "use":
+						c, err := mkClause(l, body)
+						if err != nil {
+							return nil, err
+						}
+						ls.Uses = append(ls.Uses, c)
 					case "unroll":
 						n, err := strconv.Atoi(body)
 						if err != nil {
